@@ -5,7 +5,7 @@ import random
 
 RES = {0: "file", 1: "pipe", 2: "tcp", 3: "udp", 4: "unix"}
 OPS = {1: "read", 2: "multi", 3: "arrive", 4: "poll", 5: "drive", 6: "dropslot", 7: "drophandle",
-       8: "check", 9: "closepeer", 10: "droprt", 11: "recvfrom", 12: "multifrom", 13: "wrap", 14: "multimsg"}
+       8: "check", 9: "closepeer", 10: "droprt", 11: "recvfrom", 12: "multifrom", 13: "wrap", 14: "multimsg", 15: "await"}
 
 
 def next_pow2(n):
@@ -58,8 +58,12 @@ def gen_program(rng, adversarial=False):
                 res = rng.choice([1, 2, 3, 4])
             steps.append((3, res, rng.choice([1, 1, 2, 3, buflen, buflen + 1, 2 * buflen + 3])))
             est_handles += 0
-        elif r < 0.68:
+        elif r < 0.62:
             steps.append((4, rng.randrange(nslots), 0))
+            est_handles += 1
+        elif r < 0.68:
+            # the consumer awaits next() (poll / drive rounds under a budget)
+            steps.append((15, rng.randrange(nslots), rng.choice([0, 0, 1])))
             est_handles += 1
         elif r < 0.74:
             steps.append((5, rng.choice([0, 0, 1]), 0))
@@ -111,13 +115,64 @@ def gen_exhaust(rng):
     return case
 
 
+def gen_stream_exhaust(rng):
+    """the consumer of ONE runtime-level multishot stream holds every pool buffer and keeps awaiting next()
+    while more data is waiting: the exhaustion error must come out of the stream; after releasing some
+    buffers the stream (or a new one) must deliver again"""
+    drv = rng.choice([0, 0, 1])
+    size = rng.choice([1, 1, 2, 2, 3, 4])
+    buflen = rng.choice([1, 2, 4, 8])
+    res = rng.choice([1, 2, 2, 3, 4, 4])
+    n = next_pow2(size)
+    steps = [(2, res, 0)]
+    if rng.random() < 0.7:
+        steps.append((4, 0, 0))
+    extra = rng.randrange(2, 5)
+    early = rng.randrange(0, n + extra + 1)     # arrivals before the consumer starts taking
+    for _ in range(early):
+        steps.append((3, res, buflen))
+    left = n + extra - early
+    for i in range(n):
+        if left > 0 and rng.random() < 0.5:
+            steps.append((3, res, buflen))
+            left -= 1
+        steps.append((15, 0, 0))                # takes buffer i (or waits in vain when nothing was sent yet)
+    for _ in range(left):
+        steps.append((3, res, buflen))
+    # every buffer is held, data is waiting: exhaustion must be reported, again and again
+    for _ in range(rng.randrange(1, 4)):
+        steps.append((15, 0, 0))
+        if rng.random() < 0.3:
+            steps.append((3, res, buflen))
+    steps.append((8, 0, 0))
+    # release some, continue on the same stream or on a new one
+    k = rng.randrange(1, n + 1)
+    for h in rng.sample(range(n), k):
+        steps.append((7, h, 0))
+    slot = 0
+    if rng.random() < 0.3:
+        steps.append((6, 0, 0))
+        steps.append((2, res, 0))
+        slot = 1
+    for _ in range(rng.randrange(1, k + 2)):
+        steps.append((15, slot, 1))
+    if rng.random() < 0.5:
+        steps.append((8, 0, 0))
+    case = [drv, size, buflen, len(steps)]
+    for (o, a, b) in steps:
+        case += [o, a, b]
+    return case
+
+
 def generate(seed, n):
     rng = random.Random(seed * 7919 + 7)
     out = []
     for i in range(n):
         k = rng.random()
-        if k < 0.12:
+        if k < 0.10:
             out.append(gen_exhaust(rng))
+        elif k < 0.24:
+            out.append(gen_stream_exhaust(rng))
         elif k < 0.3:
             out.append(gen_program(rng, adversarial=True))
         else:
@@ -130,7 +185,8 @@ def describe(case):
     kind = "multi" if (2 in ops or 12 in ops or 14 in ops) else "single"
     if (2 in ops or 12 in ops or 14 in ops) and (1 in ops or 11 in ops):
         kind = "mixed"
-    tail = "wrap" if 13 in ops else "droprt" if 10 in ops else "cancel" if 6 in ops else "plain"
+    tail = "wrap" if 13 in ops else "droprt" if 10 in ops else "await" if 15 in ops else \
+        "cancel" if 6 in ops else "plain"
     return ("uring" if case[0] == 0 else "poll") + "/" + kind + "/" + tail
 
 
